@@ -17,7 +17,7 @@ fn main() {
         "c09" => c09::run(&args),
         "c03" => c03::run(&args),
         "c05" => c05::run(&args),
-        "c10" => c10::run(&args),
+        "c10" => if args.str("part", "conc") == "midop" { c10::run_midop(&args) } else { c10::run(&args) },
         "c12" => c12::run(&args),
         "warmup" => return,
         other => {
